@@ -275,6 +275,9 @@ class Client(BaseComponent):
         except OSError as e:
             if e.args[0] in (EPIPE, ENOTCONN):
                 self._close()
+            elif e.args[0] in (EINTR, EWOULDBLOCK, EAGAIN, ENOBUFS):
+                # nothing was sent, try again when writable (as the server does)
+                self._buffer.appendleft(data)
             else:
                 self.fire(error(e))
 
